@@ -462,6 +462,11 @@ func GenC04(seed, run uint64, ok CompileOK) *Scenario {
 		}
 		s.Steps = append(s.Steps, st)
 	}
+	if s.Cfg.NS && r.Chance(1, 2) {
+		// the client re-binds prefixes in the map it compiled with, somewhere in the history
+		at := r.Intn(len(s.Steps) + 1)
+		s.Steps = append(s.Steps[:at:at], append([]Step{{Op: "nsrebind"}}, s.Steps[at:]...)...)
+	}
 	if r.Chance(1, 8) {
 		// warm-up run: one (expression, document, context) is evaluated many times
 		// in a row somewhere in the history (adaptive code paths)
@@ -531,6 +536,9 @@ func GenC12(seed, run uint64, ok CompileOK) *Scenario {
 			if r.Chance(1, 12) {
 				st.N = []int{130, 260, 300, 520}[r.Intn(4)] // size stratum: counters that wrap
 			}
+			if r.Chance(1, 150) {
+				st.N = 66000 // ... 16-bit ones too
+			}
 		case 6:
 			st.Op = "abandon"
 		case 7:
@@ -539,6 +547,10 @@ func GenC12(seed, run uint64, ok CompileOK) *Scenario {
 			st.Op = "gc"
 		}
 		s.Steps = append(s.Steps, st)
+	}
+	if s.Cfg.NS && r.Chance(1, 2) {
+		at := r.Intn(len(s.Steps) + 1)
+		s.Steps = append(s.Steps[:at:at], append([]Step{{Op: "nsrebind"}}, s.Steps[at:]...)...)
 	}
 	if r.Chance(1, 8) {
 		// warm-up: the relations of one expression are checked many times in a row
@@ -929,6 +941,27 @@ func GenC16G(seed, run uint64) *Scenario {
 		}
 		s.Tasks = append(s.Tasks, genCacheOps(r, n, keys, s.Cfg.Faults))
 	}
+	if r.Chance(1, 4) {
+		// one compiled expression whose pattern comes from the context node,
+		// shared by the tasks, each applying it to elements of a small document
+		// ("pnode" operations; N = element, R = which of the shared expressions)
+		top := &NodeSpec{K: "e", N: "r"}
+		for n := r.Range(3, 6); n > 0; n-- {
+			top.C = append(top.C, &NodeSpec{K: "e", N: "a", A: [][2]string{{"k", genSubject(r)}, {"p", keys[r.Intn(len(keys))]}}})
+		}
+		s.Docs = []DocSpec{{C: []*NodeSpec{top}}}
+		which := r.Intn(2)
+		for t := range s.Tasks {
+			for k := r.Range(1, 4); k > 0; k-- {
+				at := r.Intn(len(s.Tasks[t]) + 1)
+				st := Step{Op: "pnode", N: r.Intn(len(top.C)), C: which}
+				if r.Chance(1, 3) {
+					st.Rep = r.Range(2, 12)
+				}
+				s.Tasks[t] = append(s.Tasks[t][:at:at], append([]Step{st}, s.Tasks[t][at:]...)...)
+			}
+		}
+	}
 	if r.Chance(1, 8) {
 		// warm-up: every task repeats one of its operations many times
 		for t := range s.Tasks {
@@ -952,6 +985,7 @@ func GenC05(seed, run uint64, ok CompileOK) *Scenario {
 	g.UseDocs(s.Docs)
 	g.StackPos = true
 	regexRun := r.Chance(1, 4)
+	crowdConcat := !regexRun && r.Chance(1, 40) // a crowd of callers (below) all in concat(): its pooled builders
 	g.LongTexts = regexRun
 	longPats := regexRun && r.Chance(1, 5) // size stratum: patterns of 300-700 bytes
 	if regexRun {
@@ -979,10 +1013,13 @@ func GenC05(seed, run uint64, ok CompileOK) *Scenario {
 		if r.Chance(1, 5) {
 			g.FocusFn = r.Pick(FocusFuncs)
 		}
+		if crowdConcat {
+			g.FocusFn = "concat"
+		}
 		s.Exprs = genExprs(g, r.Range(1, 4), ok, func() (*E, bool, bool) { return g.Top(), false, false })
 	}
 	s.Cfg.ColdProcess = r.Chance(1, 5)
-	compileStorm := r.Chance(1, 6) // a run about concurrent Compile / CompileWithNS calls only
+	compileStorm := !crowdConcat && r.Chance(1, 6) // a run about concurrent Compile / CompileWithNS calls only
 	if compileStorm {
 		if r.Chance(1, 2) {
 			s.Cfg.ColdProcess = true // half of the compile storms meet a package in which nothing was ever compiled
@@ -1045,6 +1082,10 @@ func GenC05(seed, run uint64, ok CompileOK) *Scenario {
 	if r.Chance(1, 15) {
 		nt = r.Range(5, 6) // size stratum: more callers
 	}
+	crowd := !compileStorm && (r.Chance(1, 25) || crowdConcat)
+	if crowd {
+		nt = r.Range(9, 12) // size stratum: a crowd of callers, one or two short operations each (fixed-size tables of 8)
+	}
 	// tasks collide on purpose: a "hot" (expression, document, context) that
 	// most operations use
 	hotE, hotD := r.Intn(len(s.Exprs)), r.Intn(len(s.Docs))
@@ -1054,7 +1095,11 @@ func GenC05(seed, run uint64, ok CompileOK) *Scenario {
 	hotC := ctxFor(r, s.Docs, hotD)
 	for t := 0; t < nt; t++ {
 		var ops []Step
-		for k := r.Range(1, 6); k > 0; k-- {
+		nops := r.Range(1, 6)
+		if crowd {
+			nops = r.Range(1, 2)
+		}
+		for k := nops; k > 0; k-- {
 			st := Step{E: hotE, D: hotD, C: hotC}
 			if r.Chance(1, 3) || regexRun {
 				st.E = r.Intn(len(s.Exprs))
@@ -1086,7 +1131,7 @@ func GenC05(seed, run uint64, ok CompileOK) *Scenario {
 				st.Op = "mustbad"
 			}
 			if compileStorm && st.Op != "mustbad" {
-				st.Op, st.N = "compile", r.Intn(2)
+				st.Op, st.N = "compile", r.Intn(3) // 2: through the deprecated package-level Select
 			}
 			if s.Cfg.Faults && st.Op != "mustbad" && r.Chance(1, 10) {
 				st.Crash = r.Range(1, 30) // this operation's navigator fails half-way; the others must not notice
